@@ -77,7 +77,7 @@ pub fn make_conc_case(real_prop: &str, seed: u64, tier: Tier) -> Case {
                 c.block_kinds = vec![(Kind::Plain, 3), (Kind::Fix, 2)];
                 class = "cyclic_no_recovery".to_string();
             }
-            "C18" if r.pct(30) => {
+            "C18" | "C21" if r.pct(30) => {
                 c.block_kinds = vec![(Kind::Fb, 1)];
                 class = "cyclic_fallback".to_string();
             }
@@ -140,14 +140,70 @@ pub fn make_conc_case(real_prop: &str, seed: u64, tier: Tier) -> Case {
     };
     let mut rounds = vec![];
     let mut cur = world.clone();
+    // revalidation-race motif: everybody computes X; a joined write changes a field read by a
+    // node L below X; then one thread re-validates X while another requests L directly
+    let mut race: Option<(u16, u16, (usize, usize))> = None;
+    if !cyclic && matches!(real_prop, "C16" | "C17" | "C19") && r.pct(45) {
+        let closure = |top: usize| -> Vec<usize> {
+            let mut seen = std::collections::BTreeSet::new();
+            let mut st = vec![top];
+            while let Some(x) = st.pop() {
+                if seen.insert(x) {
+                    for op in &prog.nodes[x].ops {
+                        match op {
+                            Op::Call { n, .. } | Op::CallMulti { n, .. } | Op::MkCall { n, .. } => st.push(*n as usize),
+                            Op::CallDyn { t, .. } => st.extend(t.iter().map(|x| *x as usize)),
+                            _ => {}
+                        }
+                    }
+                }
+            }
+            seen.into_iter().collect()
+        };
+        for _ in 0..6 {
+            let x = *r.pick(&queryable) as usize;
+            let below: Vec<usize> = closure(x).into_iter().filter(|l| *l != x && queryable.contains(&(*l as u16))).collect();
+            let cands: Vec<(usize, (usize, usize))> = below
+                .iter()
+                .filter_map(|l| prog.nodes[*l].ops.iter().find_map(|op| if let Op::In { i, f, .. } = op { Some((*l, (*i as usize, *f as usize))) } else { None }))
+                .collect();
+            if !cands.is_empty() {
+                let (l, fld) = *r.pick(&cands);
+                race = Some((x as u16, l as u16, fld));
+                break;
+            }
+        }
+    }
+    let n_rounds = if race.is_some() { 2 } else { n_rounds };
     for ri in 0..n_rounds {
         let nt = r.range(2, if thorough { 4 } else { 3 });
+        // focus motif: all readers of the round work inside the callee closure of one node
+        let focus: Option<Vec<u16>> = if r.pct(55) {
+            let top = *r.pick(&queryable) as usize;
+            let mut seen = std::collections::BTreeSet::new();
+            let mut st = vec![top];
+            while let Some(x) = st.pop() {
+                if seen.insert(x) {
+                    for op in &prog.nodes[x].ops {
+                        match op {
+                            Op::Call { n, .. } | Op::CallMulti { n, .. } | Op::MkCall { n, .. } => st.push(*n as usize),
+                            Op::CallDyn { t, .. } => st.extend(t.iter().map(|x| *x as usize)),
+                            _ => {}
+                        }
+                    }
+                }
+            }
+            let v: Vec<u16> = seen.into_iter().filter(|x| queryable.contains(&(*x as u16))).map(|x| x as u16).collect();
+            if v.len() >= 2 { Some(v) } else { None }
+        } else {
+            None
+        };
         let mut readers = vec![];
         for _ in 0..nt {
             let k = r.range(1, 3);
             let mut reqs = vec![];
             for _ in 0..k {
-                let n = if !blk.is_empty() && r.pct(70) { *r.pick(&blk) } else if r.pct(50) { queryable[queryable.len() - 1 - r.usize(queryable.len().min(2))] } else { *r.pick(&queryable) };
+                let n = if let Some(f) = &focus { *r.pick(f) } else if !blk.is_empty() && r.pct(70) { *r.pick(&blk) } else if r.pct(50) { queryable[queryable.len() - 1 - r.usize(queryable.len().min(2))] } else { *r.pick(&queryable) };
                 let q = Req::Query { n, arg: r.below(m) as u32, deep: r.pct(50) };
                 let req = match prop {
                     "C08" if r.pct(50) => Req::Intern { t: r.below(4) as u8, v: r.below(m) as u32 },
@@ -159,6 +215,14 @@ pub fn make_conc_case(real_prop: &str, seed: u64, tier: Tier) -> Case {
                 reqs.push(req);
             }
             readers.push(reqs);
+        }
+        if let Some((x, l, _)) = race {
+            // round 0: every thread computes X; round 1: X is re-validated while L is requested
+            for (ti, reqs) in readers.iter_mut().enumerate() {
+                let n = if ri == 0 || ti == 0 { x } else if ti == 1 { l } else { *r.pick(&[x, l]) };
+                reqs.clear();
+                reqs.push(Req::Query { n, arg: 0, deep: false });
+            }
         }
         let mut round = Round { readers, ..Default::default() };
         match prop {
@@ -190,15 +254,24 @@ pub fn make_conc_case(real_prop: &str, seed: u64, tier: Tier) -> Case {
         // a joined write between rounds (no readers alive): the next round runs in a new revision
         let fallback = prog.nodes.iter().any(|n| n.kind == Kind::Fb);
         if ri + 1 < n_rounds && !fallback && !matches!(prop, "C20") {
-            let (i, f) = (r.usize(prog.n_inputs), r.usize(3));
-            let v = r.below(m) as u32;
+            let mut read_fields: Vec<(usize, usize)> = vec![];
+            for nd in &prog.nodes {
+                for op in &nd.ops {
+                    if let Op::In { i, f, .. } = op {
+                        read_fields.push((*i as usize, *f as usize));
+                    }
+                }
+            }
+            let (i, f) = if let Some((_, _, fld)) = race { fld } else if !read_fields.is_empty() && r.pct(80) { *r.pick(&read_fields) } else { (r.usize(prog.n_inputs), r.usize(3)) };
+            let v = if race.is_some() { (cur.ins[i][f] + 1 + r.below(m - 1) as u32) % prog.m } else { r.below(m) as u32 };
             cur.ins[i][f] = v;
             rounds.push(Round { readers: vec![], writer: Some(WriterOp::SetIn { i: i as u16, f: f as u8, v }), ..Default::default() });
         }
     }
-    let strategy = match r.below(10) {
-        0..=5 => "random",
-        6..=8 => "pct",
+    let strategy = match r.below(20) {
+        0..=7 => "random",
+        8..=11 => "pct",
+        12..=18 => "pctl",
         _ => "rr",
     };
     let conc = ConcCase {
@@ -208,11 +281,15 @@ pub fn make_conc_case(real_prop: &str, seed: u64, tier: Tier) -> Case {
         strategy: strategy.to_string(),
         stay_pct: *r.pick(&[30, 50, 70, 85, 95]),
         pct_depth: r.range(1, if thorough { 5 } else { 3 }) as u32,
+        pct_horizon: *r.pick(&[100u64, 250, 500, 500, 1000]),
         spurious_pct: if r.pct(30) { 3 } else { 0 },
         max_steps: 400_000,
         choices: vec![],
     };
     class = format!("{class}+{strategy}");
+    if race.is_some() {
+        class = format!("{class}+race");
+    }
     // fault plan for the panic scenarios: a panic at a random user callback
     let mut panic_at = None;
     let mut fault_mask = u32::MAX;
